@@ -4,6 +4,7 @@ import (
 	"context"
 	"errors"
 	"io"
+	"time"
 
 	"github.com/google/gopacket"
 	"github.com/v-byte-cpu/sx/pkg/packet"
@@ -227,5 +228,39 @@ func VerifH_C07_slowWrite() {
 	if len(rw.writes) == 2 {
 		verifAssert(rw.writes[0][1] != rw.writes[1][1], "the same frame was written twice")
 	}
+	verifCover("done")
+}
+
+// VerifH_C07_errBurst: more failed requests and writes than the 100-slot error buffers hold while
+// the consumer is busy: every failure still yields exactly one error, nothing is dropped.
+func VerifH_C07_errBurst() {
+	K := verifParam("K", 150)
+	in := make(chan *packet.BufferData, K)
+	rw := &c07RW{}
+	nWriteFail := 0
+	for i := 0; i < K; i++ {
+		if i%2 == 0 {
+			in <- &packet.BufferData{Err: errC08Req}
+			continue
+		}
+		buf := packet.NewSerializeBuffer()
+		b, _ := buf.PrependBytes(4)
+		b[0], b[1], b[2], b[3] = 0xA0, 1, 3, 0x5A
+		in <- &packet.BufferData{Buf: buf}
+		nWriteFail++
+	}
+	close(in)
+	rw.fail = []bool{false, true} // every frame carries id 1: its write fails
+	ctx, cancel := context.WithCancel(context.Background())
+	defer cancel()
+	done, errc := packet.NewSender(rw).SendPackets(ctx, in)
+	time.Sleep(time.Millisecond) // the consumer is late: the sender has filled the buffer and waits
+	n := 0
+	for range errc {
+		n++
+	}
+	<-done
+	verifAssert(n == K, "failures were not reported exactly once each when more than 100 errors were pending")
+	verifAssert(len(rw.writes) == nWriteFail, "not every frame was handed to the wire")
 	verifCover("done")
 }
